@@ -67,8 +67,11 @@ def gen_cases(ctx):
             b = [0.0, 30.0, 0.0, 30.0]
         else:  # clip box whose border is within a fraction of a cell of the particle
             b = [x - rng.choice([0.05, 0.3, 2.0]), x + rng.choice([0.05, 0.3, 2.0]), y - rng.choice([0.05, 0.3, 2.0]), y + rng.choice([0.05, 0.3, 2.0])]
+        others = []
+        if rng.random() < 0.35:  # other particles in the same call: inactive / in cells with another metric
+            others = [[rng.randint(200, 1400) / 64, rng.randint(200, 1400) / 64, rng.random() < 0.5] for _ in range(rng.randint(1, 3))]
         out.append({"k": "step", "scheme": rng.choice(["EF", "RK2", "RK4", "RK4"]), "x": x, "y": y, "dt": dt, "dx": dx, "dy": dy,
-                    "box": b, "cu": cu, "cv": cv})
+                    "box": b, "cu": cu, "cv": cv, "others": others, "varying": bool(others)})
     for _ in range(80 if ctx.quick else 600):
         cu = [rng.randint(-8, 8) / 512 for _ in range(3)] + [0.0, 0.0, 0.0]
         cv = [rng.randint(-8, 8) / 512 for _ in range(3)] + [0.0, 0.0, 0.0]
@@ -98,15 +101,21 @@ def eval_step(desc):
     cu, cv = desc["cu"], desc["cv"]
     dt, dx, dy = desc["dt"], desc["dx"], desc["dy"]
     b = desc["box"]
-    grid = ti.StubGrid(b[0], b[1], b[2], b[3], dx, dy)
+    others = desc.get("others") or []
+    grid = ti.StubGrid(b[0], b[1], b[2], b[3], dx, dy, varying=bool(desc.get("varying")))
+    fac = float(grid.factor([desc["x"]])[0])
+    dx, dy = dx * fac, dy * fac  # the metric of the particle's own cell
 
     def func(X, Y, f):
         return poly(cu, f, X, Y), poly(cv, f, X, Y)
     forcing = ti.StubForcing(func=func)
     tr, st, _ = ti.make_tracker(grid, forcing, dt, desc["scheme"])
-    st.append(X=np.array([desc["x"]]), Y=np.array([desc["y"]]), Z=5.0)
+    # the particle under test comes LAST, after the other (possibly inactive) particles
+    st.append(X=np.array([o[0] for o in others] + [desc["x"]]), Y=np.array([o[1] for o in others] + [desc["y"]]), Z=5.0,
+              active=np.array([bool(o[2]) for o in others] + [True]))
     tr.update()
-    ox, oy = float(st.X[0]), float(st.Y[0])
+    ox, oy = float(st.X[-1]), float(st.Y[-1])
+    moved_inactive = [k for k, o in enumerate(others) if not o[2] and (float(st.X[k]) != o[0] or float(st.Y[k]) != o[1])]
     ints = [1, SCHEMES[desc["scheme"]]]
     for v in (desc["x"], desc["y"], dt, dx, dy, b[0], b[1], b[2], b[3]):
         ints += fl(v)
@@ -116,7 +125,7 @@ def eval_step(desc):
     # oracle: Butcher-tableau step with the velocity at the stage positions and fractional times, valid when
     # no stage position leaves the clip box
     lo_x, hi_x, lo_y, hi_y = b[0] + 0.01, b[1] - 0.01, b[2] + 0.01, b[3] - 0.01
-    stage_pos = [(float(c[0][0]), float(c[1][0])) for c in forcing.calls]
+    stage_pos = [(float(c[0][-1]), float(c[1][-1])) for c in forcing.calls]
     clipped = any(not (lo_x < sx < hi_x and lo_y < sy < hi_y) for sx, sy in stage_pos[1:])
     outside = any(not (lo_x - 1e-12 <= sx <= hi_x + 1e-12 and lo_y - 1e-12 <= sy <= hi_y + 1e-12) for sx, sy in stage_pos[1:])
     oracle = None
@@ -126,6 +135,8 @@ def eval_step(desc):
         wx, wy, _ = tableau_step(TAB[desc["scheme"]], lambda f, x, y: (poly(cu, f, x, y), poly(cv, f, x, y)), desc["x"], desc["y"], dt / dx, dt / dy)
         if abs(wx - ox) > 1e-10 * (1 + abs(wx)) or abs(wy - oy) > 1e-10 * (1 + abs(wy)):
             oracle = f"{desc['scheme']} step gives ({ox}, {oy}), the scheme's Runge-Kutta step is ({wx}, {wy})"
+    if moved_inactive and not oracle:
+        oracle = f"inactive particles {moved_inactive} moved"
     nontriv = any(cu[j] or cv[j] for j in (1, 2, 4, 5)) and any(cu[j] or cv[j] for j in (3, 4, 5))
     return {"ints": ints, "oracle": oracle, "nontrivial": (str(desc),) if nontriv else None,
             "kind": f"step-{desc['scheme']}-{'clipped' if clipped else 'free'}", "observed": [ox, oy]}
